@@ -793,4 +793,247 @@ theorem include_root (b : Body) (hw : b.wf) {s mid s' : State} {tag : Nat} (hi :
   exact ⟨rfl, rfl, rfl, rfl, hu, add, hadd, hgu⟩
 
 
+/-! ## provenance of values -/
+
+/-- the statement defines `n` with value `v` (`.const n, v` or a label `n:` at address `v`) -/
+def Op.defines (n : Bytes) (v : Int) : Op → Prop
+  | .const m w _ => m = n ∧ w = v
+  | .label m w _ => m = n ∧ w = v
+  | _ => False
+
+def Op.imports (n : Bytes) : Op → Prop
+  | .import m _ => m = n
+  | _ => False
+
+/-- the file itself (not a file it includes) has an `.import n` statement -/
+def Body.imports (n : Bytes) : Body → Prop
+  | .nil => False
+  | .stmt o r => o.imports n ∨ r.imports n
+  | .incl _ _ r => r.imports n
+
+/-- `Up n v b`: a chain of `.export n`/`.global n` edges leads from the file with body `b` down through included files
+to a file whose own body defines `n` with value `v` (the chain has length 0 if `b` defines it itself) -/
+inductive Up (n : Bytes) (v : Int) : Body → Prop
+  | here {o : Op} {r : Body} : o.defines n v → Up n v (.stmt o r)
+  | later {o : Op} {r : Body} : Up n v r → Up n v (.stmt o r)
+  | child {tag : Nat} {c r : Body} : n ∈ c.names → Up n v c → Up n v (.incl tag c r)
+  | after {tag : Nat} {c r : Body} : Up n v r → Up n v (.incl tag c r)
+
+/-- where a valued entry of the file's own table can come from, one statement -/
+theorem stmt_prov {s s' : State} {op : Op} {r : Option Level} {C C' : Table} (hl : s.locals = some C)
+    (hl' : s'.locals = some C') (h : stmt s op = .ok (s', r)) (m : Bytes) (v : Int)
+    (hv : C'.find m = some (some v)) :
+    C.find m = some (some v) ∨ (op.imports m ∧ s.globals.find m = some (some v)) ∨ op.defines m v := by
+  have same : s'.locals = s.locals → C.find m = some (some v) := by
+    intro e; rw [hl, hl'] at e; cases e; exact hv
+  cases op with
+  | enter tag => simp only [stmt] at h; cases h; exact .inl (same rfl)
+  | exit => simp only [stmt] at h; cases h; exact .inl (same rfl)
+  | finalize => simp only [stmt] at h; cases h; exact .inl (same rfl)
+  | use n tag => exact .inl (same (doUse_tables h).1)
+  | «export» n tag => exact .inl (same (frame_export_lem hl h).1)
+  | global n tag =>
+    obtain ⟨⟨l', hl2, hx⟩, _⟩ := frame_global_lem hl h
+    rw [hl'] at hl2; cases hl2
+    rcases hx m with hx | ⟨_, _, hx⟩
+    · rw [hx] at hv; exact .inl hv
+    · rw [hx] at hv; cases hv
+  | «import» n tag =>
+    obtain ⟨_, l', hl2, hx⟩ := isolation_import_lem hl h
+    rw [hl'] at hl2; cases hl2
+    rcases hx m with hx | ⟨rfl, hx⟩
+    · rw [hx] at hv; exact .inl hv
+    · rw [hx] at hv; exact .inr (.inl ⟨rfl, hv⟩)
+  | const n w tag =>
+    obtain ⟨_, l', hl2, hall⟩ := isolation_define_lem hl (.inl h)
+    rw [hl'] at hl2; cases hl2
+    rcases hall m with hx | ⟨hmn, hx⟩
+    · rw [hx] at hv; exact .inl hv
+    · rw [hx] at hv; cases hv; exact .inr (.inr ⟨hmn.symm, rfl⟩)
+  | label n w tag =>
+    obtain ⟨_, l', hl2, hall⟩ := isolation_define_lem hl (.inr h)
+    rw [hl'] at hl2; cases hl2
+    rcases hall m with hx | ⟨hmn, hx⟩
+    · rw [hx] at hv; exact .inl hv
+    · rw [hx] at hv; cases hv; exact .inr (.inr ⟨hmn.symm, rfl⟩)
+
+/-- a valued entry `(m, v)` of the file's own table after (part of) its body: it was there before, or the file imports
+`m` and the includer's table had `(m, v)` BEFORE this part of the body, or `Up m v b` -/
+theorem body_prov : ∀ (b : Body), b.wf → ∀ {t t' : State}, Inv t → t.frames ≠ [] →
+    (t.mode = .running ∨ ∃ l, t.mode = .stopped l 0) → run t b.flatten = .ok t' →
+    ∀ {C C' : Table}, t.locals = some C → t'.locals = some C' → ∀ (m : Bytes) (v : Int),
+    C'.find m = some (some v) →
+    C.find m = some (some v) ∨ (b.imports m ∧ t.globals.find m = some (some v)) ∨ Up m v b
+  | .nil, _, t, t', _, _, _, h, C, C', hC, hC', m, v, hv => by
+    simp only [Body.flatten, run] at h; cases h
+    rw [hC] at hC'; cases hC'; exact .inl hv
+  | .stmt o r, hw, t, t', hi, hf, hm, h, C, C', hC, hC', m, v, hv => by
+    rcases hm with hm | ⟨l, hm⟩
+    · simp only [Body.flatten, run] at h
+      split at h
+      · cases h
+      · rename_i t1 h1
+        have r1 := step_stmt_rel (hi.inFile hf) hf hm hw.1 h1
+        have i1 := inv_step hi h1
+        obtain ⟨C0, C1, hC0, hC1, _, hu⟩ := r1.tabs
+        rw [hC] at hC0; cases hC0
+        -- one statement
+        have one : C1.find m = some (some v) →
+            C.find m = some (some v) ∨ ((Body.stmt o r).imports m ∧ t.globals.find m = some (some v)) ∨
+              Up m v (.stmt o r) := by
+          intro hv1
+          -- recover the statement from the step
+          have hs : ∃ s1 rr, stmt t o = .ok (s1, rr) ∧ s1.locals = t1.locals := by
+            obtain ⟨f, fs, hff⟩ : ∃ f fs, t.frames = f :: fs := by
+              cases hfr : t.frames with
+              | nil => exact absurd hfr hf
+              | cons f fs => exact ⟨f, fs, rfl⟩
+            have hstep : step t o = (match stmt t o with
+                | .error p => .error p
+                | .ok (s, none) => .ok s
+                | .ok (s, some l) => .ok { s with mode := .stopped l 0 }) := by
+              have hst := hw.1
+              cases o with
+              | enter tag => exact absurd hst (by simp [Op.isStmt])
+              | exit => exact absurd hst (by simp [Op.isStmt])
+              | finalize => exact absurd hst (by simp [Op.isStmt])
+              | label n v tag => simp only [step, hm, hff]; rfl
+              | const n v tag => simp only [step, hm, hff]; rfl
+              | global n tag => simp only [step, hm, hff]; rfl
+              | «import» n tag => simp only [step, hm, hff]; rfl
+              | «export» n tag => simp only [step, hm, hff]; rfl
+              | use n tag => simp only [step, hm, hff]; rfl
+            rw [hstep] at h1
+            split at h1
+            · cases h1
+            · rename_i s1 hs1; cases h1; exact ⟨_, _, hs1, rfl⟩
+            · rename_i s1 l hs1; cases h1; exact ⟨_, _, hs1, rfl⟩
+          obtain ⟨s1, rr, hs1, hl1⟩ := hs
+          rcases stmt_prov hC (hl1.trans hC1) hs1 m v hv1 with h' | ⟨hi', hg'⟩ | h'
+          · exact .inl h'
+          · exact .inr (.inl ⟨.inl hi', hg'⟩)
+          · exact .inr (.inr (.here h'))
+        rcases body_prov r hw.2 i1 (by rw [r1.frames]; exact hf) r1.mode h hC1 hC' m v hv with h' | ⟨hi', hg'⟩ | h'
+        · exact one h'
+        · rcases hu m with e | ⟨_, _, hc⟩
+          · rw [e] at hg'; exact .inr (.inl ⟨.inr hi', hg'⟩)
+          · rcases hc with ⟨v', hc1, hc2⟩ | ⟨_, hc2⟩
+            · rw [hc2] at hg'; cases hg'; exact one hc1
+            · rw [hc2] at hg'; cases hg'
+        · exact .inr (.inr (.later h'))
+    · rw [skip_body (.stmt o r) hw hm] at h; cases h
+      rw [hC] at hC'; cases hC'; exact .inl hv
+  | .incl tag c r, hw, t, t', hi, hf, hm, h, C, C', hC, hC', m, v, hv => by
+    rcases hm with hm | ⟨l, hm⟩
+    · have hfl : (Body.incl tag c r).flatten = (.enter tag :: c.flatten) ++ (.exit :: r.flatten) := by
+        simp [Body.flatten]
+      rw [hfl, run_append] at h
+      obtain ⟨mid, h1, h2⟩ := h
+      simp only [run] at h2
+      split at h2
+      · cases h2
+      · rename_i t1 hx
+        obtain ⟨Cc, hCc, ir⟩ := include_nested c (fun i' f' m' h' => body_rel c hw.1 i' f' m' h') hi hf hm h1 hx
+        have i1 : Inv t1 := inv_step (inv_run hi h1) hx
+        have r1 := ir.toBody
+        obtain ⟨L, L', hL, hL', hu⟩ := ir.tabs
+        rw [hC] at hL; cases hL
+        -- the included file, from the empty table
+        have h1' : run (enterFile t tag) c.flatten = .ok mid := by simpa only [run, step, hm] using h1
+        have i0 := inv_enterFile hi tag
+        have hg0 : (enterFile t tag).globals = C := by simp [enterFile, hC]
+        have one : L'.find m = some (some v) →
+            C.find m = some (some v) ∨ ((Body.incl tag c r).imports m ∧ t.globals.find m = some (some v)) ∨
+              Up m v (.incl tag c r) := by
+          intro hv1
+          rcases hu m with e | ⟨hn, hun, hc⟩
+          · rw [e] at hv1; exact .inl hv1
+          · rcases hc with ⟨v', hc1, hc2⟩ | ⟨_, hc2⟩
+            · rw [hc2] at hv1; cases hv1
+              rcases body_prov c hw.1 i0 (by simp [enterFile]) (.inl hm) h1' (C := []) rfl hCc m v hc1
+                with h' | ⟨_, hg'⟩ | h'
+              · simp [Table.find] at h'
+              · rw [hg0] at hg'; exact absurd hg' (hun v)
+              · exact .inr (.inr (.child hn h'))
+            · rw [hc2] at hv1; cases hv1
+        rcases body_prov r hw.2 i1 (by rw [r1.frames]; exact hf) r1.mode h2 hL' hC' m v hv with h' | ⟨hi', hg'⟩ | h'
+        · exact one h'
+        · rw [ir.globals] at hg'; exact .inr (.inl ⟨hi', hg'⟩)
+        · exact .inr (.inr (.after h'))
+    · rw [skip_body (.incl tag c r) hw hm] at h; cases h
+      rw [hC] at hC'; cases hC'; exact .inl hv
+
+
+/-- the table the next `.include`d file would see as its includer's: the current file's, or the global table -/
+def visible (s : State) : Table :=
+  match s.locals with
+  | some l => l
+  | none => s.globals
+
+theorem enterFile_globals (s : State) (tag : Nat) : (enterFile s tag).globals = visible s := by
+  unfold enterFile visible
+  cases s.locals <;> cases s.localTasks <;> rfl
+
+/-- the included file's final table, from the empty table: every valued entry was imported from the includer (who had
+it, with this value, before the include began) or is the end of an `Up` chain -/
+theorem file_prov (b : Body) (hw : b.wf) {s mid : State} {tag : Nat} {C : Table} (hi : Inv s)
+    (hm : s.mode = .running) (h1 : run s (.enter tag :: b.flatten) = .ok mid) (hC : mid.locals = some C)
+    (m : Bytes) (v : Int) (hv : C.find m = some (some v)) :
+    (b.imports m ∧ (visible s).find m = some (some v)) ∨ Up m v b := by
+  have h1' : run (enterFile s tag) b.flatten = .ok mid := by simpa only [run, step, hm] using h1
+  rcases body_prov b hw (inv_enterFile hi tag) (by simp [enterFile]) (.inl hm) h1' (C := []) rfl hC m v hv
+    with h' | ⟨hi', hg'⟩ | h'
+  · simp [Table.find] at h'
+  · rw [enterFile_globals] at hg'; exact .inl ⟨hi', hg'⟩
+  · exact .inr h'
+
+/-! ## positions in a project: the open files with the part of their bodies run so far -/
+
+/-- `Reach s0 ctx s`: from `s0` (outside any file) the files of `ctx` were entered one inside the other — innermost
+first; each entry is the tag of the `.include` and the part of that file's body run so far, itself a sequence of
+statements and complete includes — and `s` is the state now -/
+def Reach (s0 : State) : List (Nat × Body) → State → Prop
+  | [], s => s = s0
+  | (tag, pre) :: outer, s =>
+    ∃ so, Reach s0 outer so ∧ so.mode = .running ∧ run so (.enter tag :: pre.flatten) = .ok s
+
+/-- `Lic n v G0 ctx`: the innermost file of `ctx` is entitled to `n = v`: an `Up` chain (`.export`/`.global` edges down
+to a definition `n = v`) starts in the part of its body run so far, or it has an `.import n` and its includer was entitled
+to `n = v` when the file was entered; outside any file: the global table `G0` had it at the start -/
+def Lic (n : Bytes) (v : Int) (G0 : Table) : List (Nat × Body) → Prop
+  | [] => G0.find n = some (some v)
+  | (_, pre) :: outer => Up n v pre ∨ (pre.imports n ∧ Lic n v G0 outer)
+
+theorem reach_inv {s0 : State} (h0 : Inv s0) : ∀ (ctx : List (Nat × Body)) {s : State}, Reach s0 ctx s → Inv s
+  | [], s, h => by cases h; exact h0
+  | (tag, pre) :: outer, s, ⟨so, hr, _, hrun⟩ => inv_run (reach_inv h0 outer hr) hrun
+
+theorem reach_lic {s0 : State} (h0 : Inv s0) (hf0 : s0.frames = []) (n : Bytes) (v : Int) :
+    ∀ (ctx : List (Nat × Body)), (∀ p ∈ ctx, p.2.wf) → ∀ {s : State}, Reach s0 ctx s →
+    (ctx = [] ∨ s.frames ≠ []) ∧ ((visible s).find n = some (some v) → Lic n v s0.globals ctx)
+  | [], _, s, h => by
+    cases h
+    refine ⟨.inl rfl, ?_⟩
+    have hl : s0.locals = none := by
+      cases hl : s0.locals with
+      | none => rfl
+      | some l => have := h0.opn.locals.1 (by simp [hl]); exact absurd hf0 this
+    simp [visible, hl, Lic]
+  | (tag, pre) :: outer, hw, s, ⟨so, hr, hm, hrun⟩ => by
+    have io := reach_inv h0 outer hr
+    have ih := reach_lic h0 hf0 n v outer (fun p hp => hw p (by simp [hp])) hr
+    have hwp : pre.wf := hw (tag, pre) (by simp)
+    have hrun' : run (enterFile so tag) pre.flatten = .ok s := by simpa only [run, step, hm] using hrun
+    have br := body_rel pre hwp (inv_enterFile io tag) (by simp [enterFile]) (.inl hm) hrun'
+    have hfs : s.frames ≠ [] := by rw [br.frames]; simp [enterFile]
+    refine ⟨.inr hfs, ?_⟩
+    intro hv
+    obtain ⟨_, C, _, hC, _, _⟩ := br.tabs
+    have hvis : visible s = C := by simp [visible, hC]
+    rw [hvis] at hv
+    rcases file_prov pre hwp io hm hrun hC n v hv with ⟨hi', hg'⟩ | h'
+    · exact .inr ⟨hi', ih.2 hg'⟩
+    · exact .inl h'
+
+
 end Trion.Scope
